@@ -165,7 +165,9 @@ def r2(R2, cfg, F):
                 # the result tested is the one produced by the load (record(..) or the bare closure call)
                 roots = b.call_roots(src[0])
                 names = sorted(r.callee.best for r in roots if r.callee)
-                if 'hot_reloading::records::record' not in names or not all(n in ('hot_reloading::records::record', 'hot_reloading::records::Dependencies::empty') or n.endswith('reload_untyped::{closure#0}') for n in names):
+                # (the load closure may be written in place on the no-reloader arm: then its catch_unwind / panic-to-Error appear here)
+                fine = ('hot_reloading::records::record', 'hot_reloading::records::Dependencies::empty', 'std::panic::catch_unwind', 'error::Error::new')
+                if 'hot_reloading::records::record' not in names or not all(n in fine or re.search(r'reload_untyped::\{closure#\d+\}$', n) for n in names):
                     ok = False
                     why = 'the tested result is not the load result (%s)' % names
                 # Some(deps) only where write was executed
